@@ -1,60 +1,41 @@
 #!/usr/bin/env python3
-"""Silent-on-holding-code test: every patch under selftest/benign is a behaviour-preserving edit
-(rename, reorder, if-let <-> match, extract/move a helper). Applied to a scratch copy of /repo, every
-property's check must still exit 0. Exit 0 iff no check raises an alarm."""
-import glob
-import json
+"""Silent-on-holding-code battery: every patch under selftest/benign is a behaviour-preserving edit (rename, reorder,
+if-let <-> match, extract/move a helper). Applied to a scratch copy of /repo, every property's check must still exit 0.
+Exit 0 iff no check raises an alarm.   usage: benign.py [substring of patch name ...]"""
 import os
-import shutil
-import subprocess
 import sys
-import tempfile
+import harness
 
-HERE = os.path.dirname(os.path.abspath(__file__))
-VERIF = os.path.dirname(HERE)
-PROPS = ["C%02d" % i for i in range(1, 20) if i != 4]
+
+def run_benign(bat, patches, props):
+    alarms = []
+    for patch in patches:
+        name = os.path.basename(patch)
+        repo, err = bat.scratch(patch)
+        if err:
+            print("SKIP     %-44s %s" % (name, err))
+            alarms.append((name, "-", err))
+            continue
+        bad = []
+        for pid in props:
+            code, keys, text = bat.run(repo, pid)
+            if code != 0:
+                extra = [l.strip()[:160] for l in text.splitlines() if "INFRA" in l or "Error" in l][:2]
+                bad.append("%s: %s" % (pid, "; ".join(k[:120] for k in keys[:3]) or "; ".join(extra) or "exit=%d" % code))
+        print("%s %-44s %s" % ("ALARM   " if bad else "silent  ", name, ""))
+        for b in bad:
+            print("           " + b)
+            alarms.append((name, b.split(":")[0], b))
+    return alarms
 
 
 def main():
     only = sys.argv[1:]
-    scratch = tempfile.mkdtemp(prefix="verif-benign-")
-    bad = 0
-    try:
-        for patch in sorted(glob.glob(os.path.join(HERE, "benign", "*.patch"))):
-            name = os.path.basename(patch)
-            if only and not any(o in name for o in only):
-                continue
-            repo = os.path.join(scratch, "repo")
-            if os.path.exists(repo):
-                shutil.rmtree(repo)
-            subprocess.check_call(["rsync", "-a", "--exclude", "target", "--exclude", ".git", "/repo/", repo + "/"])
-            r = subprocess.run(["patch", "-p1", "-s", "-d", repo, "-i", patch], stdout=subprocess.PIPE, stderr=subprocess.STDOUT, text=True)
-            if r.returncode != 0:
-                print("SKIP     %-44s patch does not apply" % name)
-                continue
-            env = dict(os.environ, REPO=repo)
-            alarms = []
-            for pid in PROPS:
-                out = subprocess.run([os.path.join(VERIF, "check"), pid, "quick"], cwd=VERIF, env=env, stdout=subprocess.PIPE, stderr=subprocess.STDOUT, text=True)
-                if out.returncode != 0:
-                    lines = [l.strip()[:170] for l in out.stdout.splitlines() if l.strip().startswith("violation") or "INFRA" in l or "Traceback" in l or "Error" in l]
-                    alarms.append((pid, out.returncode, lines[:4]))
-            if alarms:
-                bad += 1
-                print("ALARM    %-44s" % name)
-                for pid, rc, lines in alarms:
-                    for l in lines or ["exit=%d" % rc]:
-                        print("           %s: %s" % (pid, l))
-            else:
-                print("SILENT   %-44s" % name)
-    finally:
-        shutil.rmtree(scratch, ignore_errors=True)
-        cache = os.path.join(VERIF, ".cache")
-        for d in os.listdir(cache):
-            if d.startswith("facts-") or d.startswith("evidence-"):
-                shutil.rmtree(os.path.join(cache, d), ignore_errors=True)
-    print("%d benign edit(s) raised an alarm" % bad)
-    return 1 if bad else 0
+    patches = [p for p in harness.benign_patches() if not only or any(o in os.path.basename(p) for o in only)]
+    with harness.Battery() as bat:
+        alarms = run_benign(bat, patches, harness.PROPS)
+    print("%d benign edit(s) raised an alarm" % len({a[0] for a in alarms}))
+    return 1 if alarms else 0
 
 
 if __name__ == "__main__":
